@@ -2,6 +2,7 @@ package mocker
 
 import (
 	"reflect"
+	"sync/atomic"
 
 	"github.com/tencent/goom/arg"
 	"github.com/tencent/goom/internal/hack"
@@ -23,12 +24,19 @@ func interceptDebugInfo(imp interface{}, pFunc iface.PFunc, mocker Mocker) (inte
 	// 因为当使用了 when 时候,imp 代理会被覆盖,pFunc 会生效; 所以优先拦截有 pFunc 代理的 mock 回调
 	if pFunc != nil {
 		originPFunc := pFunc
+		var logging int32
 		pFunc = func(params []reflect.Value) []reflect.Value {
 			results := originPFunc(params)
 			// 日志打印用到了 time.Now,避免递归死循环
 			if mocker.String() == excludeFunc {
 				return results
 			}
+			// the log path may itself call the mocked function (strconv.Itoa, path.Base, ...): that nested call is
+			// not logged, it would recurse forever
+			if !atomic.CompareAndSwapInt32(&logging, 0, 1) {
+				return results
+			}
+			defer atomic.StoreInt32(&logging, 0)
 			logger.Consolefc(logger.DebugLevel, "mocker [%s] called, args [%s], results [%s]",
 				logger.Caller(hack.InterceptCallerSkip), mocker.String(), arg.SprintV(params), arg.SprintV(results))
 			return results
@@ -39,6 +47,7 @@ func interceptDebugInfo(imp interface{}, pFunc iface.PFunc, mocker Mocker) (inte
 	if imp != nil {
 		originImp := imp
 		impType := reflect.TypeOf(imp)
+		var logging int32
 		imp = reflect.MakeFunc(impType, func(params []reflect.Value) []reflect.Value {
 			var results []reflect.Value
 			if impType.IsVariadic() {
@@ -50,6 +59,12 @@ func interceptDebugInfo(imp interface{}, pFunc iface.PFunc, mocker Mocker) (inte
 			if mocker.String() == excludeFunc {
 				return results
 			}
+			// the log path may itself call the mocked function (strconv.Itoa, path.Base, ...): that nested call is
+			// not logged, it would recurse forever
+			if !atomic.CompareAndSwapInt32(&logging, 0, 1) {
+				return results
+			}
+			defer atomic.StoreInt32(&logging, 0)
 			logger.Consolefc(logger.DebugLevel, "mocker [%s] called, args [%s], results [%s]",
 				logger.Caller(hack.InterceptCallerSkip), mocker.String(), arg.SprintV(params), arg.SprintV(results))
 			return results
